@@ -36,3 +36,46 @@ Theorem C01_check_pipeline_sound :
     forall n, pw_eval (R := Qc_cring) F sp n = moments_vec law fp ms n s0.
 Proof. exact check_pipeline_sound. Qed.
 Print Assumptions C01_check_pipeline_sound.
+
+(* END TO END ON THE SOURCE PROGRAM.  One executable test over the source program (after the
+   parser's desugaring of simultaneous assignment), a type environment for its variables,
+   and Polar's final linear system, initial values and closed forms.  Acceptance implies: the
+   closed forms with their special cases are the exact moments of the SOURCE program under
+   the reference semantics (first-matching branch, independent draws and choices, state frozen
+   once the guard is false) after n iterations, for EVERY n — whatever the normalisation
+   passes, the typer, the recurrence builder and the solvers did in between. *)
+From Polar Require Import SrcWp SrcPipeline.
+Theorem C01_check_pipeline_src_sound :
+  forall law cmom p T ms A v F sp, cmom_ok law cmom ->
+    check_pipeline_src cmom p T ms A v F sp = true ->
+    forall s0, init_ok_src p T s0 ->
+    forall n, pw_eval (R := Qc_cring) F sp n = moments_src law p ms n s0.
+Proof. exact check_pipeline_src_sound. Qed.
+Print Assumptions C01_check_pipeline_src_sound.
+
+(* indicator polynomials of arbitrary comparison conditions over finitely typed variables *)
+Theorem C01_arith_gen_sound :
+  forall T s c p, typed T s -> arith_gen T c = Some p -> eval_poly p s = ind (holds c s).
+Proof. exact arith_gen_sound. Qed.
+Print Assumptions C01_arith_gen_sound.
+
+(* non-vacuity: x=0; c=Bernoulli(1/2); while x==0: if c==1: x=Bernoulli(1/2) end end,
+   system {x, c, c*x} as Polar builds it, closed form of E(x) etc. *)
+Open Scope string_scope.
+Definition ex1_prog : prog :=
+  {| p_init := BCons (SAssign "x" (RDet (EConst (mkq 0 1))))
+               (BCons (SAssign "c" (RDraw (DBern (EConst (mkq 1 2))))) BNil);
+     p_guard := CAtom (EVar "x") Ceq (EConst (mkq 0 1));
+     p_body := BCons (SIf (BrCons (CAtom (EVar "c") Ceq (EConst (mkq 1 1)))
+                                  (BCons (SAssign "x" (RDraw (DBern (EConst (mkq 1 2))))) BNil) BrNil) BNil) BNil |}.
+Definition cm0 : string -> list Qc -> nat -> Qc := fun _ _ _ => 0%Qc.
+Example C01_nonvacuous_src :
+  check_pipeline_src cm0 ex1_prog [("x", [mkq 0 1; mkq 1 1]); ("c", [mkq 0 1; mkq 1 1])]
+    [[("x", 1%nat)]; [("c", 1%nat)]; [("c", 1%nat); ("x", 1%nat)]]
+    [[mkq 1 1; mkq 1 2; mkq (-1) 2]; [mkq 0 1; mkq 1 1; mkq 0 1]; [mkq 0 1; mkq 1 2; mkq 1 2]]
+    [mkq 0 1; mkq 1 2; mkq 0 1]
+    [ [(mkq 1 1, [mkq 1 2]); (mkq 1 2, [mkq (-1) 2])];
+      [(mkq 1 1, [mkq 1 2])];
+      [(mkq 1 1, [mkq 1 2]); (mkq 1 2, [mkq (-1) 2])] ]
+    [] = true.
+Proof. vm_compute. reflexivity. Qed.
